@@ -44,6 +44,13 @@ package rules
 // implementing type), result structs ({snapshot, error} from pull is followed; the watcher pair
 // is not looked at), the done channel found in structs nested in the syncer.
 //
+// Fourth robustness set (C19/r13..r16, all silent): a stored value passed through a local of the
+// copy loop; the comparison's per-key loop behind a callback iterator (`every(a, func(k, v) bool)`:
+// the iterator's loop, the callback's result and the caller's use of the verdict are each checked);
+// the prefix bool replaced by an enum-like integer with a predicate method (the comparison that
+// separates prefix reads from single-key reads is learnt in pull — predicates on the enum are
+// interpreted in place — and gives the adapters' constants their meaning); adapters in another file.
+//
 // Files: c19.go (helpers, R-C19-3), c19_units.go (run, units, R-C19-1), c19_timer.go (periodic source of R-C19-3), c19_reads.go (R-C19-2), c19_eq.go (R-C19-4),
 // c19_adapters.go (R-C19-5).
 //
@@ -126,13 +133,18 @@ type c19unit struct {
 
 // c19run is what the rules share about (*syncer).run.
 type c19run struct {
-	f         *flow.Func
-	cons      string
-	sendObj   *types.Var // the delivery callback parameter
-	keyObj    *types.Var // string parameter (key / prefix)
-	prefObj   *types.Var // bool parameter (prefix flag)
-	snapT     types.Type // map[string]*mvccpb.KeyValue
-	pm        map[ast.Node]ast.Node
+	f        *flow.Func
+	cons     string
+	sendObj  *types.Var // the delivery callback parameter
+	keyObj   *types.Var // string parameter (key / prefix)
+	prefObj  *types.Var // bool parameter (prefix flag)
+	snapT    types.Type // map[string]*mvccpb.KeyValue
+	pm       map[ast.Node]ast.Node
+	prefEnum bool // the key/prefix choice is an enum-like integer, not a bool
+	// what "prefix" means for an enum flag, learnt from pull: prefix ⇔ ((flag == prefVal) == prefIs)
+	prefVal   string
+	prefIs    bool
+	prefKnown bool
 	runObj    *types.Func
 	targetObj *types.Var                           // run's parameter object carrying (key, prefix), if any
 	unitAlias map[types.Object]*c19unit            // helper parameters bound to a unit closure
